@@ -41,6 +41,66 @@ ListenerId GLID;     /* arbitrary listener id   (_listeners witness) */
 size_t GQ;           /* arbitrary logical index (write-queue witness) */
 size_t GB;           /* arbitrary byte index into a socket address */
 
+/* ---- ghost record of the environment ----
+ * All ghost records live in ONE object (every global is an addressed object for CBMC, and DFCC's cost grows steeply with --object-bits,
+ * measured); sub-structs are the units of the assigns clauses: G.cl (close path), G.ep (epoll interest), G.tx (send/sendto), G.rx (receive path). */
+struct iora_udp_ghost {
+  struct { unsigned closeCb_calls; SessionId closeCb_sid; bool closeCb_erased; bool closeCb_locked; TransportError closeCb_why;
+           unsigned close_calls; int close_fd; unsigned delEpoll_calls; int delEpoll_fd; unsigned delEpoll_closes_before; } cl;
+  struct { unsigned modEpoll_calls; int modEpoll_fd; uint32_t modEpoll_ev; } ep;
+  struct { size_t front_lo; size_t calls, ok, again, err; bool is_sendto; int fd; const uint8_t *p; int n; socklen_t tolen; uint8_t to_gb; int flags; int ret; int err_no;
+           size_t w_calls; const uint8_t *w_p; int w_n; socklen_t w_tolen; uint8_t w_to_gb; } tx;
+  struct { unsigned acceptCb_calls; SessionId acceptCb_sid; bool acceptCb_locked; unsigned dataCb_calls; SessionId dataCb_sid; const uint8_t *dataCb_p; size_t dataCb_n; bool dataCb_locked;
+           unsigned errorCb_calls; } rx;
+} G;
+/* close callback */
+#define G_closeCb_calls G.cl.closeCb_calls
+#define G_closeCb_sid G.cl.closeCb_sid
+#define G_closeCb_erased G.cl.closeCb_erased
+#define G_closeCb_locked G.cl.closeCb_locked
+#define G_closeCb_why G.cl.closeCb_why
+/* descriptors */
+#define G_close_calls G.cl.close_calls
+#define G_close_fd G.cl.close_fd
+#define G_delEpoll_calls G.cl.delEpoll_calls
+#define G_delEpoll_fd G.cl.delEpoll_fd
+#define G_delEpoll_closes_before G.cl.delEpoll_closes_before      /* close() calls seen when epoll DEL ran */
+#define G_modEpoll_calls G.ep.modEpoll_calls
+#define G_modEpoll_fd G.ep.modEpoll_fd
+#define G_modEpoll_ev G.ep.modEpoll_ev
+/* accept / data / error callbacks */
+#define G_acceptCb_calls G.rx.acceptCb_calls
+#define G_acceptCb_sid G.rx.acceptCb_sid
+#define G_acceptCb_locked G.rx.acceptCb_locked
+#define G_dataCb_calls G.rx.dataCb_calls
+#define G_dataCb_sid G.rx.dataCb_sid
+#define G_dataCb_p G.rx.dataCb_p
+#define G_dataCb_n G.rx.dataCb_n
+#define G_dataCb_locked G.rx.dataCb_locked
+#define G_errorCb_calls G.rx.errorCb_calls
+/* send / sendto: calls = ok + again + err (plain counters: bounded by the queue length in every contract); *_w_*: the call that carried the
+ * queue element at the witness index GQ */
+#define G_front_lo G.tx.front_lo          /* logical index of the element the most recent front() returned */
+#define G_tx_calls G.tx.calls
+#define G_tx_ok G.tx.ok
+#define G_tx_again G.tx.again
+#define G_tx_err G.tx.err
+#define G_tx_is_sendto G.tx.is_sendto
+#define G_tx_fd G.tx.fd
+#define G_tx_p G.tx.p
+#define G_tx_n G.tx.n
+#define G_tx_tolen G.tx.tolen
+#define G_tx_to_gb G.tx.to_gb
+#define G_tx_flags G.tx.flags
+#define G_tx_ret G.tx.ret
+#define G_tx_errno G.tx.err_no
+#define G_txw_calls G.tx.w_calls
+#define G_txw_p G.tx.w_p
+#define G_txw_n G.tx.w_n
+#define G_txw_tolen G.tx.w_tolen
+#define G_txw_to_gb G.tx.w_to_gb
+
+
 /* ---- callbacks (R21): std::function members of EngineBase::Callbacks ---- */
 typedef struct { bool set; } iora_cb_onAccept;
 typedef struct { bool set; } iora_cb_onConnect;
@@ -66,14 +126,17 @@ static inline bool iora_dq_dg_empty(const iora_dq_dg *d) { return d->hi == d->lo
 static inline void iora_dq_dg_emplace_back(iora_dq_dg *d, OutDg v)
 { IORA_ASSERT(d->hi < (size_t)-1, "ghost push counter does not wrap"); if (d->hi == GQ) d->w = v; d->hi++; }
 static inline OutDg *iora_dq_dg_front(iora_dq_dg *d)
-{ IORA_ASSERT(d->lo < d->hi, "deque::front() on a non-empty deque"); if (d->lo == GQ) return &d->w; OutDg nd; d->other = nd; return &d->other; }
+{ IORA_ASSERT(d->lo < d->hi, "deque::front() on a non-empty deque"); G_front_lo = d->lo; if (d->lo == GQ) return &d->w;
+  /* any other element: arbitrary, within the element invariant that sendDo establishes for every element it queues (clause SD5: toLen <= 128, length <= INT_MAX) */
+  OutDg nd; IORA_ASSUME(nd.toLen <= sizeof(sockaddr_storage) && nd.payload.n <= 0x7fffffff); d->other = nd; return &d->other; }
 static inline void iora_dq_dg_pop_front(iora_dq_dg *d) { IORA_ASSERT(d->lo < d->hi, "deque::pop_front() on a non-empty deque"); d->lo++; }
 static inline size_t iora_dq_bb_size(const iora_dq_bb *d) { return d->hi - d->lo; }
 static inline bool iora_dq_bb_empty(const iora_dq_bb *d) { return d->hi == d->lo; }
 static inline void iora_dq_bb_emplace_back(iora_dq_bb *d, iora_vec v)
 { IORA_ASSERT(d->hi < (size_t)-1, "ghost push counter does not wrap"); if (d->hi == GQ) d->w = v; d->hi++; }
 static inline iora_vec *iora_dq_bb_front(iora_dq_bb *d)
-{ IORA_ASSERT(d->lo < d->hi, "deque::front() on a non-empty deque"); if (d->lo == GQ) return &d->w; iora_vec nd; d->other = nd; return &d->other; }
+{ IORA_ASSERT(d->lo < d->hi, "deque::front() on a non-empty deque"); G_front_lo = d->lo; if (d->lo == GQ) return &d->w;
+  iora_vec nd; IORA_ASSUME(nd.n <= 0x7fffffff); d->other = nd; return &d->other; }
 static inline void iora_dq_bb_pop_front(iora_dq_bb *d) { IORA_ASSERT(d->lo < d->hi, "deque::pop_front() on a non-empty deque"); d->lo++; }
 
 /* ---- engine records ---- */
@@ -83,6 +146,7 @@ typedef struct Session { SessionId id; Role role; int fd; ListenerId owner; sock
 /* default member initialisers of struct Session (udp_engine.hpp) */
 #define Session_DEFAULT ((Session){ .id = 0, .role = Role_ServerPeer, .fd = -1, .owner = 0, .peer = {{0}}, .plen = 0, .pkey = 0, \
   .wq = {0}, .wantWrite = false, .closed = false, .created = 0, .lastActivity = 0, .connectPending = false, .connectStart = 0, .lastWriteProgress = 0 })
+typedef struct { SessionId sid; iora_vec payload; } SendReq;
 typedef struct { size_t ioReadChunk; size_t maxWriteQueue; bool closeOnBackpressure; bool useEdgeTriggered; size_t maxSessions; } TransportConfig;
 typedef struct { uint64_t accepted, connected, closed, errors, bytesIn, bytesOut, backpressureCloses; size_t sessionsCurrent, sessionsPeak; } AtomicStats;
 
@@ -136,19 +200,24 @@ static inline bool iora_sess_wlock_held(const iora_map1_sess *m)
 /* ---- ghost record of the environment ---- */
 #define IORA_SAT 1000000u      /* ghost counters saturate far above anything a contract compares them with */
 #define IORA_BUMP(c) do { if ((c) < IORA_SAT) (c)++; } while (0)
-/* close callback */
-unsigned G_closeCb_calls; SessionId G_closeCb_sid; bool G_closeCb_erased; bool G_closeCb_locked; TransportError G_closeCb_why;
-/* accept / data / error callbacks */
-unsigned G_acceptCb_calls; SessionId G_acceptCb_sid; bool G_acceptCb_locked;
-unsigned G_dataCb_calls; SessionId G_dataCb_sid; const uint8_t *G_dataCb_p; size_t G_dataCb_n; bool G_dataCb_locked;
-unsigned G_errorCb_calls;
-/* descriptors */
-unsigned G_close_calls; int G_close_fd; unsigned G_delEpoll_calls; int G_delEpoll_fd; unsigned G_delEpoll_closes_before;   /* close() calls seen when epoll DEL ran */
-unsigned G_modEpoll_calls; int G_modEpoll_fd; uint32_t G_modEpoll_ev;
-/* send / sendto */
-unsigned G_tx_calls;            /* send + sendto calls */
-unsigned G_tx_ok, G_tx_again, G_tx_err;
-bool G_tx_is_sendto; int G_tx_fd; const uint8_t *G_tx_p; int G_tx_n; socklen_t G_tx_tolen; uint8_t G_tx_to_gb; int G_tx_flags; int G_tx_ret;
+/* message strings are interned; literal text is not modelled (R8/R20: message text is lost) */
+#define iora_str_lit(lit) ((iora_strid)sizeof(lit))
+#define iora_str_cat(lit, id) ((iora_strid)sizeof(lit) + (id))
+
+/* send(2) / sendto(2) on a non-blocking datagram socket: -1 with any errno, or a count 0..n (A: the kernel takes a datagram whole or not at all).
+ * Every call is recorded; the call that transmits the queue element at the witness index GQ (as told by the last front()) is recorded separately. */
+static inline int iora_tx_common(bool is_sendto, int fd, const uint8_t *p, int n, int flags, const sockaddr *to, socklen_t tolen)
+{ IORA_ASSERT(n >= 0, "TX0 datagram length fits the int length argument");
+  IORA_ASSERT(!is_sendto || tolen <= sizeof(sockaddr_storage), "TX0 destination length within sockaddr_storage");
+  G_tx_calls++; G_tx_is_sendto = is_sendto; G_tx_fd = fd; G_tx_p = p; G_tx_n = n; G_tx_flags = flags; G_tx_tolen = tolen;
+  G_tx_to_gb = (is_sendto && GB < tolen && GB < sizeof(sockaddr_storage)) ? to->b[GB] : 0;
+  if (G_front_lo == GQ) { G_txw_calls++; G_txw_p = p; G_txw_n = n; G_txw_tolen = tolen; G_txw_to_gb = G_tx_to_gb; }
+  int r = nondet_int(); int e = nondet_int();
+  IORA_ASSUME(r >= -1 && r <= n && e > 0);
+  if (r < 0) { iora_errno = e; G_tx_errno = e; if (e == EAGAIN) G_tx_again++; else G_tx_err++; } else { G_tx_ok++; }
+  G_tx_ret = r; return r; }
+static inline int iora_sys_send(int fd, const uint8_t *p, int n, int flags) { return iora_tx_common(0, fd, p, n, flags, NULL, 0); }
+static inline int iora_sys_sendto(int fd, const uint8_t *p, int n, int flags, const sockaddr *to, socklen_t tolen) { return iora_tx_common(1, fd, p, n, flags, to, tolen); }
 
 static inline MonoTime iora_mono_now(void) { return nondet_i64(); }
 static inline iora_strid UdpEngine_lastErr(UdpEngine *self) { (void)self; return nondet_u64(); }
